@@ -1,10 +1,336 @@
-//! C15 — (stub; filled in during the build phase)
+//! C15 — results are reproducible and do not depend on the order of the inputs.
 
+use super::c08::decode_request;
 use super::PropMeta;
 use crate::engine::*;
+use crate::model::run::*;
+use crate::model::tree::Node;
+use crate::proc::{encode_reply, run, show_bytes, split_request, Gen, Install, Scenario, Script, Step};
+use crate::util::*;
+use serde_json::{json, Value};
+use std::collections::BTreeMap;
+use std::time::Duration;
 
-pub fn meta(_m: &mut PropMeta) {}
+pub fn meta(m: &mut PropMeta) {
+    m.rule = "a pool of 16 file texts spread over nested and sibling modules (cross-file type references, alias chains, inheritance, deprecated uses, doc links that resolve only when another file is present, a redefinition across files, a containment cycle across files, a dictionary key struct, and a definition named like a nested module of another file); EVERY subset of 2..4 files (quick) / 2..5 files (thorough) x ALL permutations of the subset, compiled in-process; every compilation is executed twice (fresh hash seeds) and must give identical diagnostics and ASTs; across the permutations of one subset: accepted-or-rejected is constant and, when accepted, every file's observed AST and the multiset of warnings (code, message, file, span) are constant. Process level: 3-file programs x every source/reference assignment x all 6 orders through the real binary with a capturing generator: exit status constant, warning multiset constant, and the decoded request content of every file constant (only the split and order change); every scenario repeated under hash seeds VERIF_HASH_SEED = 0..3 (quick) / 0..31 (thorough) via an LD_PRELOAD getrandom shim: stderr, stdout and the captured request must be byte-identical. non-trivial = the subset's files refer to each other; distinct = distinct (subset, order).";
+    m.explanation = "exhaustive subsets x permutations x source/reference assignments; differential oracle (no expected value needed); controlled hash seeds";
+    m.quick_bound = "all subsets of 2..4 of 16 files x all permutations; 4 hash seeds";
+    m.thorough_bound = "all subsets of 2..5 of 16 files x all permutations; 32 hash seeds";
+    m.assumptions.push("the hash-seed space cannot be enumerated: seeds are a controlled, replayable sample; the permutation / assignment part is exhaustive");
+}
 
-pub fn families(_tier: &str) -> Vec<Box<dyn Family>> {
-    vec![]
+const POOL: [&str; 16] = [
+    "module A\nstruct S0 { x: int32 }\nenum E0 : uint8 { X }\n",
+    "module A\nstruct S1 { s: S0, e: E0? }\n",
+    "module A::B\nstruct T { s: S0, u: A::S1 }\n",
+    "module A::B\ntypealias AL = [cs::l] Sequence<T>\nstruct V { a: AL, b: Dictionary<string, AL?> }\n",
+    "module Z\ninterface I { op(s: A::S0) -> A::B::T }\n",
+    "module Z\ninterface J : I { op2() }\n[deprecated(\"gone\")] struct Old {}\n",
+    "module Z\nstruct UsesOld { o: Old, p: Sequence<Old?> }\n",
+    "module A\nstruct S0 {}\n",
+    "module A\n/// See {@link B::T} and {@link Nope}.\ncustom C\n",
+    "module A\nstruct B { q: int32 }\n",
+    "module Q\nstruct U { x: A::B }\n",
+    "module A\nstruct R1 { r: Sequence<R2> }\n",
+    "module A\nstruct R2 { r: R1? }\n",
+    "module A\ncompact struct K { k: int32 }\nstruct D { d: Dictionary<K, S0> }\n",
+    "module A::B\nstruct Lone { q: int32 }\n",
+    "module A::B::C\ntypealias Deep = T\nstruct W { t: Deep, s: S0, z: ::Z::Old? }\n",
+];
+
+/// files whose presence together makes a definition collide with a nested module of another file
+fn has_module_definition_collision(subset: &[usize]) -> bool {
+    subset.contains(&9) && (subset.contains(&2) || subset.contains(&3) || subset.contains(&14) || subset.contains(&15))
+}
+
+fn subsets(n: usize, k: usize) -> Vec<Vec<usize>> {
+    fn rec(start: usize, n: usize, k: usize, cur: &mut Vec<usize>, out: &mut Vec<Vec<usize>>) {
+        if cur.len() == k {
+            out.push(cur.clone());
+            return;
+        }
+        for i in start..n {
+            cur.push(i);
+            rec(i + 1, n, k, cur, out);
+            cur.pop();
+        }
+    }
+    let mut out = vec![];
+    rec(0, n, k, &mut vec![], &mut out);
+    out
+}
+
+fn permutations(items: &[usize]) -> Vec<Vec<usize>> {
+    if items.len() <= 1 {
+        return vec![items.to_vec()];
+    }
+    let mut out = vec![];
+    for i in 0..items.len() {
+        let mut rest = items.to_vec();
+        let x = rest.remove(i);
+        for mut p in permutations(&rest) {
+            p.insert(0, x);
+            out.push(p);
+        }
+    }
+    out
+}
+
+#[derive(Clone, PartialEq, Debug)]
+struct Outcome {
+    accepted: bool,
+    /// per pool file: observed AST (spans included)
+    trees: BTreeMap<usize, Node>,
+    /// sorted warnings with the file index translated to the pool index
+    warnings: Vec<(String, String, Option<usize>, Option<crate::model::tree::Sp>)>,
+    error_codes: Vec<String>,
+    /// everything in report order (for the same-order repetition check)
+    all: Vec<(String, String, String, Option<usize>, Option<crate::model::tree::Sp>)>,
+}
+
+fn compile_order(order: &[usize]) -> Result<Outcome, (String, String)> {
+    let texts: Vec<&str> = order.iter().map(|i| POOL[*i]).collect();
+    let (_ast_kept_alive, files, diags) = compile_texts(&texts, None)?; // the files point into the AST
+    let map_file = |f: &Option<String>| f.as_ref().and_then(|f| f.trim_start_matches("string-").parse::<usize>().ok()).map(|i| order[i]);
+    let accepted = !diags.iter().any(|d| d.level == "error");
+    let mut trees = BTreeMap::new();
+    if accepted {
+        for (i, f) in files.iter().enumerate() {
+            if let Ok(t) = guarded(|| crate::model::observe::file(f)) {
+                trees.insert(order[i], t);
+            }
+        }
+    }
+    let mut warnings: Vec<_> = diags.iter().filter(|d| d.level == "warning").map(|d| (d.code.clone(), d.message.clone(), map_file(&d.file), d.span)).collect();
+    warnings.sort_by(|a, b| format!("{a:?}").cmp(&format!("{b:?}")));
+    let mut error_codes: Vec<String> = diags.iter().filter(|d| d.level == "error").map(|d| d.code.clone()).collect();
+    error_codes.sort();
+    let all = diags.iter().map(|d| (d.code.clone(), d.level.clone(), d.message.clone(), map_file(&d.file), d.span)).collect();
+    Ok(Outcome { accepted, trees, warnings, error_codes, all })
+}
+
+pub struct Permutations {
+    subsets: Vec<Vec<usize>>,
+}
+impl Permutations {
+    pub fn new(max: usize) -> Self {
+        let mut s = vec![];
+        for k in 2..=max {
+            s.extend(subsets(POOL.len(), k));
+        }
+        Permutations { subsets: s }
+    }
+}
+impl Family for Permutations {
+    fn name(&self) -> String {
+        format!("permutations/{} subsets of the 16-file pool x all permutations, each compiled twice", self.subsets.len())
+    }
+    fn len(&self) -> u64 {
+        self.subsets.len() as u64
+    }
+    fn describe(&self, idx: u64) -> Value {
+        let s = &self.subsets[idx as usize];
+        json!({"files": s.iter().map(|i| POOL[*i]).collect::<Vec<_>>(), "pool_indices": s, "orders": permutations(s).len()})
+    }
+    fn run(&self, idx: u64) -> CaseOut {
+        let subset = &self.subsets[idx as usize];
+        let mut out = CaseOut::new(hash_str(&format!("c15perm{subset:?}")));
+        out.steps = 0;
+        out.validated = 1;
+        let feature = if has_module_definition_collision(subset) { "definition-named-like-nested-module-of-another-file" } else { "no-module-definition-collision" };
+        let show = |o: &[usize]| o.iter().map(|i| format!("--- file (pool #{i}) ---\n{}", POOL[*i])).collect::<Vec<_>>().join("");
+        let mut first: Option<(Vec<usize>, Outcome)> = None;
+        for order in permutations(subset) {
+            out.steps += 2;
+            let (a, b) = match (compile_order(&order), compile_order(&order)) {
+                (Ok(a), Ok(b)) => (a, b),
+                (Err((loc, msg)), _) | (_, Err((loc, msg))) => {
+                    out.violate(format!("c15/permutations/panic@{loc}"), format!("panic at {loc}: {msg}\n{}", show(&order)));
+                    continue;
+                }
+            };
+            if a != b {
+                out.violate("c15/permutations/two-compilations-of-the-same-input-differ", format!("compiling the same files in the same order twice gave different results: {:?} vs {:?}\n{}", a.all, b.all, show(&order)));
+            }
+            match &first {
+                None => first = Some((order.clone(), a)),
+                Some((o0, f)) => {
+                    if f.accepted != a.accepted {
+                        out.violate(
+                            format!("c15/permutations/acceptance-depends-on-order/{feature}"),
+                            format!("order {o0:?} is {} (errors {:?}) but order {order:?} is {} (errors {:?})\n{}", if f.accepted { "accepted" } else { "rejected" }, f.error_codes, if a.accepted { "accepted" } else { "rejected" }, a.error_codes, show(&order)),
+                        );
+                    } else if a.accepted {
+                        if f.warnings != a.warnings {
+                            out.violate(format!("c15/permutations/warnings-depend-on-order/{feature}"), format!("order {o0:?}: {:?}\norder {order:?}: {:?}\n{}", f.warnings, a.warnings, show(&order)));
+                        }
+                        for (k, t) in &a.trees {
+                            if f.trees.get(k) != Some(t) {
+                                let d = f.trees.get(k).and_then(|x| crate::model::tree::diff(x, t));
+                                out.violate(format!("c15/permutations/compiled-content-depends-on-order/{feature}"), format!("pool file #{k} compiles to a different AST in order {order:?} than in {o0:?}: {:?}\n{}", d.map(|d| (d.path_named, d.expected, d.observed)), show(&order)));
+                            }
+                        }
+                    }
+                }
+            }
+        }
+        if let Some((_, f)) = &first {
+            out.class = format!("{}:{}w:{}", if f.accepted { "accepted" } else { "rejected" }, f.warnings.len(), f.error_codes.first().cloned().unwrap_or_default());
+            out.nontrivial = f.accepted || !f.error_codes.iter().all(|c| c == "E033");
+        }
+        let mut seen = std::collections::HashSet::new();
+        out.violations.retain(|v| seen.insert(v.sig.clone()));
+        out
+    }
+}
+
+// ---------------------------------------------------------------------------------------------------------------
+
+fn shim_path() -> String {
+    std::env::var("VERIF_HASH_SHIM").unwrap_or_else(|_| "/verif/.build/libhashseed.so".to_string())
+}
+
+const PROGRAMS: [[usize; 3]; 4] = [[0, 1, 2], [5, 6, 4], [0, 2, 8], [0, 13, 1]];
+
+struct BinObs {
+    exit: Option<i32>,
+    stderr: Vec<u8>,
+    stdout: Vec<u8>,
+    request: Option<Vec<u8>>,
+    crashed: bool,
+}
+
+fn run_binary(files: &[(usize, bool)], seed: Option<u32>) -> BinObs {
+    let mut sc = Scenario::default();
+    let mut argv = vec![];
+    for (i, src) in files {
+        let name = format!("f{i}.slice");
+        sc.tree.push((name.clone(), crate::proc::Node::File(POOL[*i].as_bytes().to_vec())));
+        if *src {
+            argv.push(name);
+        } else {
+            argv.push("-R".into());
+            argv.push(name);
+        }
+    }
+    sc.gens.push(Gen { name: "capture".into(), install: Install::Script(Script(vec![Step::ReadAll, Step::Stdout(encode_reply(&[], &[])), Step::Exit(0)])) });
+    argv.push("-G".into());
+    argv.push("{relgen0}".into());
+    sc.argv = argv;
+    if let Some(s) = seed {
+        sc.env.push(("LD_PRELOAD".into(), shim_path()));
+        sc.env.push(("VERIF_HASH_SEED".into(), s.to_string()));
+    }
+    let o = run(&sc, Duration::from_secs(20));
+    let request = o.gens.get(0).and_then(|g| g.stdin.clone()).and_then(|s| split_request(&s, &[]).map(|r| r.to_vec()));
+    BinObs { exit: o.exit_code, crashed: o.timed_out || o.signal.is_some() || o.panic_location().is_some(), stderr: o.stderr, stdout: o.stdout, request }
+}
+
+pub struct Assignments {
+    pub seeds: u32,
+}
+impl Assignments {
+    fn decode(&self, idx: u64) -> (usize, u64, usize) {
+        let order = (idx % 6) as usize;
+        let assign = (idx / 6) % 7 + 1;
+        let prog = (idx / 42) as usize;
+        (prog, assign, order)
+    }
+}
+impl Family for Assignments {
+    fn name(&self) -> String {
+        format!("binary-assignments-and-seeds/4 three-file programs x 7 source/reference assignments x 6 orders through the real binary, each under {} hash seeds", self.seeds)
+    }
+    fn len(&self) -> u64 {
+        4 * 42
+    }
+    fn hang_secs(&self) -> f64 {
+        120.0
+    }
+    fn describe(&self, idx: u64) -> Value {
+        let (p, a, o) = self.decode(idx);
+        json!({"pool_files": PROGRAMS[p], "sources_mask": format!("{a:#b}"), "order": o, "seeds": self.seeds})
+    }
+    fn run(&self, idx: u64) -> CaseOut {
+        let (p, assign, oi) = self.decode(idx);
+        let order = [[0usize, 1, 2], [0, 2, 1], [1, 0, 2], [1, 2, 0], [2, 0, 1], [2, 1, 0]][oi];
+        let files: Vec<(usize, bool)> = order.iter().map(|k| (PROGRAMS[p][*k], (assign >> k) & 1 == 1)).collect();
+        let mut out = CaseOut::new(hash_str(&format!("c15bin{idx}")));
+        out.steps = 0;
+        out.validated = 1;
+        out.nontrivial = true;
+        let desc = || format!("files (pool index, is source) in command-line order: {files:?}");
+        if !std::path::Path::new(&shim_path()).exists() {
+            out.violate("c15/binary/machinery-shim-missing", format!("{} does not exist (run setup.sh)", shim_path()));
+            return out;
+        }
+        // reference run of this scenario and of the canonical scenario (all sources, pool order)
+        let base = run_binary(&files, Some(0));
+        out.steps += 1;
+        if base.crashed {
+            out.violate("c15/binary/crash-or-hang", desc());
+            return out;
+        }
+        for seed in 1..self.seeds {
+            let o = run_binary(&files, Some(seed));
+            out.steps += 1;
+            if o.stderr != base.stderr || o.stdout != base.stdout || o.exit != base.exit {
+                out.violate("c15/binary/diagnostics-depend-on-hash-seed", format!("seed 0: exit {:?} stderr {}\nseed {seed}: exit {:?} stderr {}\n{}", base.exit, show_bytes(&base.stderr), o.exit, show_bytes(&o.stderr), desc()));
+                break;
+            }
+            if o.request != base.request {
+                out.violate("c15/binary/request-depends-on-hash-seed", format!("the generator request differs between hash seeds 0 and {seed}\n{}", desc()));
+                break;
+            }
+        }
+        // same seed twice: byte-identical
+        let again = run_binary(&files, Some(0));
+        out.steps += 1;
+        if again.stderr != base.stderr || again.stdout != base.stdout || again.request != base.request || again.exit != base.exit {
+            out.violate("c15/binary/two-runs-of-the-same-input-differ", desc());
+        }
+        // against the canonical arrangement: all three as sources in pool order
+        let canon_files: Vec<(usize, bool)> = PROGRAMS[p].iter().map(|k| (*k, true)).collect();
+        let canon = run_binary(&canon_files, Some(0));
+        out.steps += 1;
+        if (canon.exit == Some(0)) != (base.exit == Some(0)) {
+            out.violate("c15/binary/acceptance-depends-on-assignment-or-order", format!("canonical arrangement exits {:?}, this one {:?}: {}\n{}", canon.exit, base.exit, show_bytes(&base.stderr), desc()));
+        }
+        let norm = |b: &[u8]| {
+            let s = String::from_utf8_lossy(b).to_string();
+            // warnings as a multiset of header+location blocks: compare sorted "warning [" header lines and location lines
+            let mut v: Vec<String> = s.lines().filter(|l| l.starts_with("warning [") || l.starts_with("error [") || l.starts_with(" --> ")).map(|l| l.to_string()).collect();
+            v.sort();
+            v
+        };
+        if norm(&canon.stderr) != norm(&base.stderr) {
+            out.violate("c15/binary/reports-depend-on-assignment-or-order", format!("canonical: {:?}\nthis: {:?}\n{}", norm(&canon.stderr), norm(&base.stderr), desc()));
+        }
+        if let (Some(a), Some(b)) = (&canon.request, &base.request) {
+            match (decode_request(a), decode_request(b)) {
+                (Ok((s1, r1)), Ok((s2, r2))) => {
+                    let by_path = |s: Vec<Node>, r: Vec<Node>| -> BTreeMap<String, Node> { s.into_iter().chain(r.into_iter()).map(|n| (n.get("path").unwrap_or("?").to_string(), n)).collect() };
+                    let (m1, m2) = (by_path(s1, r1), by_path(s2.clone(), r2.clone()));
+                    if m1 != m2 {
+                        out.violate("c15/binary/request-content-depends-on-assignment-or-order", format!("the content transmitted for some file differs from the canonical arrangement\n{}", desc()));
+                    }
+                    let exp_src: Vec<String> = files.iter().filter(|f| f.1).map(|f| format!("f{}.slice", f.0)).collect();
+                    let got_src: Vec<String> = s2.iter().map(|n| n.get("path").unwrap_or("?").to_string()).collect();
+                    if exp_src != got_src {
+                        out.violate("c15/binary/source-list", format!("sources expected {exp_src:?}, request has {got_src:?}\n{}", desc()));
+                    }
+                }
+                (Err(e), _) | (_, Err(e)) => out.violate("c15/binary/request-undecodable", format!("{e}\n{}", desc())),
+            }
+        } else if canon.exit == Some(0) {
+            out.violate("c15/binary/request-missing", desc());
+        }
+        out.class = format!("exit{:?}:{}warnings", base.exit, norm(&base.stderr).iter().filter(|l| l.starts_with("warning")).count());
+        out
+    }
+}
+
+pub fn families(tier: &str) -> Vec<Box<dyn Family>> {
+    let quick = tier == "quick";
+    vec![Box::new(Assignments { seeds: if quick { 4 } else { 32 } }), Box::new(Permutations::new(if quick { 4 } else { 5 }))]
 }
